@@ -244,7 +244,7 @@ def check(case, ctx):
     if case.get('intern', True):
         value, n_interned = proj.intern_leaves(value, m)
         if n_interned:
-            ctx.count('date_or_path_leaf_object_used_twice')
+            ctx.count('date_path_or_stringlike_leaf_object_used_twice')
     try:
         projection = proj.Projector(m).project(value)
         tree = to_pt(projection)
